@@ -277,6 +277,9 @@ func (rw *rewriter) block(b *ast.BlockStmt) {
 func (rw *rewriter) list(in []ast.Stmt) []ast.Stmt {
 	var out []ast.Stmt
 	for _, s := range in {
+		if w := rw.chanWait(s); w != nil {
+			out = append(out, w)
+		}
 		s = rw.stmt(s)
 		if rw.stmtPoints {
 			switch s.(type) {
@@ -288,6 +291,75 @@ func (rw *rewriter) list(in []ast.Stmt) []ast.Stmt {
 		out = append(out, s)
 	}
 	return out
+}
+
+// chanWait returns a vsched.WaitRecv/WaitSend/WaitSelect call to run before a statement whose channel
+// operation may block: `<-ch`, `v := <-ch`, `v, ok = <-ch`, `ch <- v`, and `select` without default.
+func (rw *rewriter) chanWait(s ast.Stmt) ast.Stmt {
+	call := func(fn string, args ...ast.Expr) ast.Stmt {
+		rw.usedSched = true
+		return &ast.ExprStmt{X: &ast.CallExpr{Fun: &ast.SelectorExpr{X: ast.NewIdent("vsched"), Sel: ast.NewIdent(fn)}, Args: args}}
+	}
+	recvOf := func(e ast.Expr) ast.Expr {
+		if p, ok := e.(*ast.ParenExpr); ok {
+			e = p.X
+		}
+		if u, ok := e.(*ast.UnaryExpr); ok && u.Op == token.ARROW && pure(u.X) {
+			return u.X
+		}
+		if u, ok := e.(*ast.UnaryExpr); ok && u.Op == token.ARROW && accessor(u.X) {
+			// e.g. <-ctx.Done(), <-cluster.Context().Done(): evaluating accessor-style calls without arguments twice is harmless
+			return u.X
+		}
+		return nil
+	}
+	slice := func(es []ast.Expr) ast.Expr {
+		return &ast.CompositeLit{Type: &ast.ArrayType{Elt: &ast.InterfaceType{Methods: &ast.FieldList{}}}, Elts: es}
+	}
+	switch x := s.(type) {
+	case *ast.ExprStmt:
+		if ch := recvOf(x.X); ch != nil {
+			return call("WaitRecv", ch)
+		}
+	case *ast.AssignStmt:
+		if len(x.Rhs) == 1 {
+			if ch := recvOf(x.Rhs[0]); ch != nil {
+				return call("WaitRecv", ch)
+			}
+		}
+	case *ast.SendStmt:
+		if pure(x.Chan) {
+			return call("WaitSend", x.Chan)
+		}
+	case *ast.SelectStmt:
+		var recvs, sends []ast.Expr
+		for _, c := range x.Body.List {
+			cc := c.(*ast.CommClause)
+			switch comm := cc.Comm.(type) {
+			case nil:
+				return nil // has a default case: never blocks
+			case *ast.ExprStmt:
+				if ch := recvOf(comm.X); ch != nil {
+					recvs = append(recvs, ch)
+				} else {
+					return nil
+				}
+			case *ast.AssignStmt:
+				if ch := recvOf(comm.Rhs[0]); ch != nil {
+					recvs = append(recvs, ch)
+				} else {
+					return nil
+				}
+			case *ast.SendStmt:
+				if !pure(comm.Chan) {
+					return nil
+				}
+				sends = append(sends, comm.Chan)
+			}
+		}
+		return call("WaitSelect", slice(recvs), slice(sends))
+	}
+	return nil
 }
 
 // exprFuncLits instruments function literals nested in an expression/statement.
@@ -394,6 +466,21 @@ func sharedPure(e ast.Expr) bool {
 		return false
 	}
 	return pure(e)
+}
+
+// accessor: identifiers, selectors and argument-less calls chained together (x.y().z())
+func accessor(e ast.Expr) bool {
+	switch x := e.(type) {
+	case *ast.Ident:
+		return true
+	case *ast.SelectorExpr:
+		return accessor(x.X)
+	case *ast.CallExpr:
+		return len(x.Args) == 0 && accessor(x.Fun)
+	case *ast.ParenExpr:
+		return accessor(x.X)
+	}
+	return false
 }
 
 func pure(e ast.Expr) bool {
